@@ -141,11 +141,25 @@ func (c *Client) handleAcceptVersion(msg protocol.Message) error {
 			msgAcceptVersion.Version,
 		)
 	}
+	offeredVersionData, offered := c.config.ProtocolVersionMap[msgAcceptVersion.Version]
+	if !offered || offeredVersionData == nil {
+		return fmt.Errorf(
+			"peer accepted protocol version that was not proposed: %d",
+			msgAcceptVersion.Version,
+		)
+	}
 	versionData, err := protoVersion.NewVersionDataFromCborFunc(
 		msgAcceptVersion.VersionData,
 	)
 	if err != nil {
 		return err
+	}
+	if versionData == nil ||
+		versionData.NetworkMagic() != offeredVersionData.NetworkMagic() {
+		return fmt.Errorf(
+			"peer accepted protocol version %d with mismatched network magic",
+			msgAcceptVersion.Version,
+		)
 	}
 	return c.config.FinishedFunc(
 		c.callbackContext,
